@@ -13,6 +13,53 @@ T = {
             'Every cell any library path constructs is compared (mask, hash and depth at levels 0..3, content) with an independent '
             'spec model; all 1024 bit lengths x patterns x 0..4 refs, DAGs with sharing, depth 1023/1024 limits, equality/dict pool.',
             'R1 reference model (validated against the pinned main-net block hash), hashlib, bitarray'),
+    'C02': ('M-INV invariant hook + R1 reference differential on exotic trees (two routes) + metamorphic pruning invariance',
+            'exploration', '4/C02',
+            'Random spec-valid exotic trees (all 7 pruned masks, library refs, Merkle proofs/updates nested to level 3) built via Builder(type_) '
+            'and parsed from an independent encoding; every cell compared with R1 at levels 0..3; exhaustive prunings of small trees.',
+            'R1 exotic semantics (validated on the main-net block and by pruning invariance inside the reference)'),
+    'C03': ('metamorphic round-trip monitor (encode/decode = id) over DAG classes x options x forms x entry points, with M-INV on parsed cells',
+            'exploration', '4/C03',
+            'DAG classes incl. exotic trees, maximal sharing and header-width boundaries through all 6 option sets, 3 input forms and 4 entry points; '
+            'parsed root compared by hash and recursively by (type, bits, refs).', 'library hash trusted only via C01/C02 (checked again here against R1)'),
+    'C04': ('reference-model monitor: strict independent BoC decoder (R2) on every emission',
+            'exploration', '4/C04',
+            'Every to_boc emission (6 option sets) is decoded by a strict decoder written from boc.tlb: widths, forward refs, distinct cells, index = '
+            'cumulative end offsets (x2 with cache bits), CRC coverage, flags, level-mask byte, reachability; decoded DAG compared with the source.',
+            'R2 decoder validated on the pinned main-net block'),
+    'C05': ('reference-model monitor (R2 encoder with all freedoms) + fault enumeration (all bit flips, truncations, extensions, reference rewrites)',
+            'fault_enumeration', '4/C05',
+            'Positive: conforming encodings under every encoder freedom must parse to the denoted roots. Negative: for bases <= 320 bytes every '
+            'single-bit flip of CRC-protected input, every truncation, extensions, every reference slot rewritten (self/backward/dangling) must raise.',
+            'R2 encoder self-checked by the R2 decoder on every case; rejection = any Exception'),
+    'C06': ('reference bit-writer differential (R3) + sequential shadow of slice position + preload/load postconditions',
+            'exploration', '4/C06',
+            'Typed field sequences packed to the cell limits; bits compared with an independent TL-B encoder after every store; every load compared '
+            'in value and type, preload == load, position after each load, nothing left unread; exhaustive single-field sweeps over all widths.',
+            'R3 field encodings written from block.tlb (MsgAddress, VarUInteger, Grams)'),
+    'C07': ('sequential shadow model of builder capacity / slice remaining + M-INV capacity invariant on every constructed cell',
+            'exploration', '4/C07',
+            'Fill level 0..1023 x store kind x {room, exact, one too many}; ref fill x composite stores; out-of-range values; depth limit; every '
+            'remaining length x read kind x over-read amounts x 10 slice origins; random histories with shadow re-sync after expected failures.',
+            'shadow model = bit string + ref count; "refused" = any Exception'),
+    'C08': ('M-SNAP snapshot registry re-validated after every operation of random histories + Cell.order postcondition + pure-call re-evaluation',
+            'exploration', '4/C08',
+            'Random operation histories (15 op kinds incl. mutation attempts on every derived container) over a small pool; after every operation '
+            'every registered live cell is re-fingerprinted (hash, bits, ref identities, 6 serialisations).',
+            'only derived objects are attacked; mutating cell.bits/cell.refs of the cell object itself is outside the property'),
+    'C13': ('metamorphic round-trip monitor + independent 36-byte layout/CRC-16 reference + fault enumeration of single-character substitutions',
+            'fault_enumeration', '4/C13',
+            'All 256 workchains x id patterns x 9 renderings round-trip with flags; for sampled addresses all 48x63 substitutions are rejected.',
+            'R6 CRC-16; substitution within the same 64-symbol alphabet'),
+    'C17': ('reference-model monitor (independent block.tlb VmStack encoder) + M-SNAP on caller values + double-serialisation metamorphic check',
+            'exploration', '4/C17',
+            'Stacks over all value kinds, integer boundaries, tuples to length 255 / nesting 6, all ten continuation kinds with control data; library '
+            'cell compared with the reference cell; parsed back from own and reference cells; caller values fingerprinted before/after.',
+            'reference VmStack encoder; -2^63 excluded from bit-exact comparison (schema freedom)'),
+    'C18': ('reference-model monitor: bitwise CRC definitions (R6) beside the table-driven implementation, with table-index coverage shadow',
+            'exploration', '4/C18',
+            'All 65536 two-byte inputs (every table index under every preceding byte), all lengths 0..300/2000, long buffers, both byte orders.',
+            'R6 validated on the catalogue check values'),
 }
 
 
